@@ -788,6 +788,10 @@ pub fn check_case(cx: &mut Ctx, case: &Case, mut rep: Option<&mut Report>) -> Ve
     let model = &mut cx.model;
     assert_eq!(model.ask(&format!("mach 1 {}", case.recv.line())), "ok");
     let mut rcv = build(&case.recv);
+    let mid_frame = crate::c13::snap::dirty_midframe(&mut rcv, &case.recv);
+    if let Some(r) = rep.as_deref_mut() {
+        r.count("receiver_mid_frame", if mid_frame { "inside a frame, after a border write" } else { "frame start" });
+    }
     let (bytes, segs, file_pages, ay_regs): (Vec<u8>, Vec<String>, BTreeMap<u8, Vec<u8>>, [u8; 16]) = match &case.file {
         FileSpec::Szx(s) => {
             let (b, sg) = s.encode();
@@ -847,6 +851,25 @@ pub fn check_case(cx: &mut Ctx, case: &Case, mut rep: Option<&mut Report>) -> Ve
     while rcv.next_audio_sample().is_some() {}
     if let Some(r) = rep.as_deref_mut() {
         r.eval();
+    }
+    // An SZX says how far into its frame the machine is (dwCyclesStart of Z80R): after the load the frame clock
+    // stands there, plus at most the one port write a later SPCR chunk performs (4 T and up to 6 T of contention).
+    if let (FileSpec::Szx(s), Outcome::Ok) = (&case.file, &outcome) {
+        if s.order.iter().any(|c| *c == Ck::Z80r) {
+            let l: u32 = if case.recv.m128 { 70908 } else { 69888 };
+            let want = s.cycles % l;
+            let gotc = rcv.verif_frame_clocks() as u32;
+            let d = (gotc + l - want) % l;
+            if d > 12 {
+                out.push(Finding {
+                    phase: "load",
+                    group: "frame-position".into(),
+                    kind: Kind::SpecViolated,
+                    got: format!("frame clock {} after the load", gotc),
+                    want: format!("dwCyclesStart = {} (at most 12 T later)", want),
+                });
+            }
+        }
     }
     let mismatch = case.file_m128() != case.recv.m128;
     let model_outcome = if mpart.starts_with("ok") { "ok".to_string() } else { mpart.to_string() };
@@ -1178,7 +1201,7 @@ pub fn random_szx(r: &mut Rng, m128: bool) -> SzxSpec {
         let j = r.below(k as u64 + 1) as usize;
         order.swap(k, j);
     }
-    SzxSpec { mid, st, fe, cycles: if r.chance(1, 3) { r.below(16) as u32 } else { r.below(60000) as u32 }, memptr: r.u16(), fset: r.bool(), order }
+    SzxSpec { mid, st, fe, cycles: if r.chance(1, 3) { r.below(16) as u32 } else { let v = r.below(60000) as u32; if v % 4 == 3 { (if mid >= 2 { 70908 } else { 69888 }) - 1 - (v / 4) % 1100 } else { v } }, memptr: r.u16(), fset: r.bool(), order }
 }
 
 fn random_recv(r: &mut Rng, m128: bool) -> MState {
